@@ -90,6 +90,27 @@ func vfC04Volume(cc *CallContext, n int64) error {
 	return nil
 }
 
+// vfC04Extras is the per-execution list of extras the "extval" handler attaches
+// to its logs (one log per entry).
+var vfC04Extras [][]KV
+
+// vfC04Text is the content alphabet for extras keys and values: everything a Go
+// string handed to ClientLog can legitimately hold that is valid UTF-8 (invalid
+// UTF-8 cannot round-trip through JSON and is excluded).
+var vfC04Text = []struct{ tag, s string }{
+	{"plain", "status"},
+	{"empty", ""},
+	{"quote-backslash", `say "hi" \ C:\dir`},
+	{"newline-tab", "line1\nline2\tend\r"},
+	{"ansi-escape", "\x1b[31mFAILED\x1b[0m"},
+	{"bell-vt-nul", "a\ab\vc\x00d"},
+	{"del", "x\x7fy"},
+	{"html", "<a href='x'>&amp;</a>"},
+	{"non-ascii", "é 名前 ✓"},
+	{"astral-unprintable", "tag\U000e0001\U0001f600"},
+	{"line-separators", "a\u2028b\u2029c\u0085"},
+}
+
 // vfC04Sentinel is the ONE *RpcError value the "sent*" handlers return on every
 // call (the package-level-sentinel idiom). It is re-created at the start of each
 // execution so nothing a server writes into it leaks between executions.
@@ -105,6 +126,16 @@ func vfC04Server() *Server {
 	})
 	UnaryVoid(s, "volvoid", func(ctx context.Context, cc *CallContext, p VfXParams) error {
 		return vfC04Volume(cc, p.X)
+	})
+	Unary(s, "extval", func(ctx context.Context, cc *CallContext, p VfXParams) (int64, error) {
+		vfEvents = append(vfEvents, VfEvent{What: "unary", Method: cc.Method})
+		for i, ex := range vfC04Extras {
+			cc.ClientLog(LogInfo, fmt.Sprintf("e%d", i), ex...)
+		}
+		if vfC04Script.outcome == "rpcerr" {
+			return 0, &RpcError{Type: "ValueError", Message: "scripted rpc failure"}
+		}
+		return p.X, nil
 	})
 	Unary(s, "sentval", func(ctx context.Context, cc *CallContext, p VfXParams) (int64, error) {
 		vfEvents = append(vfEvents, VfEvent{What: "unary", Method: cc.Method})
@@ -591,4 +622,117 @@ func TestVerif_C04(t *testing.T) {
 		}
 		x.Outcome("%s|%s|logs=%d|res=%d|exc=%d", tr, oc.name, gotN, nRes, nExc)
 	})
+
+	// Fourth space: CONTENT of log extras. The extras a handler passes are part
+	// of the message it emitted: vgi_rpc.log_extra must be a JSON object that
+	// decodes to exactly that map, whatever (valid UTF-8) text it holds.
+	venum.Explore(t, venum.Cfg{Name: "log-extras-content", Shardable: true}, func(x *venum.X) {
+		vi := x.Choose(len(vfC04Text), "extra-value")
+		ki := x.Choose(len(vfC04Text), "extra-key")
+		tr := transports[x.Choose(len(transports), "transport")]
+		fails := x.Bool("handler-fails")
+		two := x.Bool("second-entry")
+		kv := []KV{{Key: vfC04Text[ki].s, Value: vfC04Text[vi].s}}
+		if two {
+			kv = append(kv, KV{Key: "other", Value: "plain"})
+		}
+		// log 0 carries the extras under test, log 1 plain extras, log 2 none
+		vfC04Extras = [][]KV{kv, {{Key: "k", Value: "v"}}, nil}
+		vfC04Script.logs, vfC04Script.outcome = nil, "value"
+		if fails {
+			vfC04Script.outcome = "rpcerr"
+		}
+		vfResetEvents()
+		x.Note("%s key=%s value=%s second-entry=%v fails=%v", tr, vfC04Text[ki].tag, vfC04Text[vi].tag, two, fails)
+		s := vfC04Server()
+		req := vfXReq("extval", 9, MetaRequestID, "rx")
+		var body []byte
+		var pan any
+		if tr == "pipe" {
+			body, _, pan = vfServePipe(s, req)
+		} else {
+			rec, p := vfArrowPost(NewHttpServer(s), "/extval", req)
+			body, pan = rec.Body.Bytes(), p
+		}
+		cls := "value"
+		if fails {
+			cls = "error"
+		}
+		base := "C04:" + tr + ":" + cls + ":log-extras-content:"
+		if pan != nil {
+			x.Failf(base+"panic-escaped", "panic escaped dispatch: %v", pan)
+			x.Outcome("panic")
+			return
+		}
+		streams, _, perr := vfParseStreams(body)
+		if perr != nil || len(streams) != 1 {
+			x.Failf(base+"unparseable", "response: %d streams, parse error %v", len(streams), perr)
+			x.Outcome("unparseable")
+			return
+		}
+		var logs []vfBatch
+		nRes, nExc := 0, 0
+		last := ""
+		for _, b := range streams[0].Batches {
+			k := vfC04Kind(b)
+			last = k
+			switch k {
+			case "log":
+				logs = append(logs, b)
+			case "result":
+				nRes++
+			default:
+				nExc++
+			}
+		}
+		if len(logs) != 3 || logs[0].MV(MetaLogMessage) != "e0" || logs[1].MV(MetaLogMessage) != "e1" || logs[2].MV(MetaLogMessage) != "e2" {
+			x.Failf(base+"log-filter", "handler emitted e0,e1,e2; response carries %d log batches", len(logs))
+			x.Outcome("logs=%d", len(logs))
+			return
+		}
+		if (fails && (nExc != 1 || nRes != 0 || last != "exception")) || (!fails && (nRes != 1 || nExc != 0 || last != "result")) {
+			x.Failf(base+"result-or-exception", "fails=%v: %d result / %d exception batches, last=%s", fails, nRes, nExc, last)
+		}
+		wantMaps := []map[string]string{{}, {"k": "v"}, nil}
+		for _, e := range kv {
+			wantMaps[0][e.Key] = e.Value
+		}
+		oc := ""
+		for i, b := range logs {
+			raw, has := b.M(MetaLogExtra)
+			if wantMaps[i] == nil {
+				if has && raw != "" && raw != "{}" && raw != "null" {
+					x.Failf(base+"extras-invented", "log e%d had no extras, wire carries %q", i, raw)
+				}
+				continue
+			}
+			var got map[string]string
+			if err := json.Unmarshal([]byte(raw), &got); err != nil {
+				x.Failf(base+"not-json:"+vfC04ExtraClass(i, ki, vi), "log e%d: vgi_rpc.log_extra %q is not a JSON object of strings: %v (handler passed %q)", i, raw, err, wantMaps[i])
+				oc += "|notjson"
+				continue
+			}
+			same := len(got) == len(wantMaps[i])
+			for k, v := range wantMaps[i] {
+				if gv, ok := got[k]; !ok || gv != v {
+					same = false
+				}
+			}
+			if !same {
+				x.Failf(base+"altered:"+vfC04ExtraClass(i, ki, vi), "log e%d: extras decode to %q, handler passed %q (wire %q)", i, got, wantMaps[i], raw)
+			}
+			oc += "|" + raw
+		}
+		x.Outcome("%s|%v%s", tr, fails, oc)
+	})
+}
+
+// vfC04ExtraClass names, for signatures, whose extras broke: log 0 carries the
+// alphabet text (the exact key/value tags are in the note and the detail), logs
+// 1 and 2 carry plain / no extras.
+func vfC04ExtraClass(i, ki, vi int) string {
+	if i != 0 || (vfC04Text[vi].tag == "plain" && vfC04Text[ki].tag == "plain") {
+		return "plain-extras"
+	}
+	return "special-text-extras"
 }
